@@ -27,6 +27,7 @@ import (
 	"strconv"
 	"strings"
 	"sync"
+	"sync/atomic"
 	"time"
 
 	"github.com/els0r/goProbe/v4/pkg/capture/capturetypes"
@@ -97,6 +98,9 @@ func genFlows(base, d, b int) []Flow {
 	if base == 2 && d == 0 {
 		n4, n6 = 2, 2
 	}
+	if base == 3 {
+		n4, n6 = 2+(d+b)%2, b%2
+	}
 	var fl []Flow
 	for i := 0; i < n4; i++ {
 		u := uint64(i)
@@ -125,6 +129,9 @@ func genFlows(base, d, b int) []Flow {
 
 func blocksOfDay(base, d int) []int64 {
 	// block offsets (multiples of 300 s) inside the day
+	if base == 3 {
+		return []int64{300, 600, 900, 1200} // several blocks behind a damaged one (sequential reads)
+	}
 	switch (base + d) % 3 {
 	case 0:
 		return []int64{300, 600}
@@ -140,7 +147,7 @@ var (
 	bases  = map[string]*baseInfo{}
 )
 
-const nBases = 3
+const nBases = 4
 
 func buildBase(id int, work string) (*baseInfo, error) {
 	baseMu.Lock()
@@ -203,8 +210,8 @@ type Input struct {
 	TFirst  int64  `json:"tfirst"`
 	TLast   int64  `json:"tlast"`
 	Class   string `json:"class"`
-	Day     int    `json:"day"`   // touched day index (-1 none)
-	Block   int    `json:"block"` // touched block index when the damage is confined to one block of column files (-1: whole day)
+	Day     int    `json:"day"`     // touched day index (-1 none)
+	Block   int    `json:"block"`   // touched block index when the damage is confined to one block of column files (-1: whole day)
 	Foreign bool   `json:"foreign"` // directory names outside the database's own naming: the query may fail as a whole
 	Attrs   int    `json:"attrs"`   // selected attributes: bit 0 sip, 1 dip, 2 proto, 3 dport (time is always selected)
 	Ops     []Op   `json:"ops"`
@@ -247,6 +254,90 @@ func emptyMeta() []byte {
 	x := make([]byte, 144)
 	binary.BigEndian.PutUint64(x[0:], 1)
 	return x
+}
+
+// descriptor fields of block blk of column col
+func descOf(meta []byte, n, col, blk int) (l, raw uint32, enc byte) {
+	p := descPos(n, col, blk)
+	return binary.BigEndian.Uint32(meta[p:]), binary.BigEndian.Uint32(meta[p+4:]), meta[p+8]
+}
+
+// smaller non-zero values of v: 1, v-1, v/2 and the single-bit flips that decrease it
+func smaller(v uint32, bitflips bool) []uint32 {
+	seen := map[uint32]bool{}
+	var out []uint32
+	add := func(x uint32) {
+		if x > 0 && x < v && !seen[x] {
+			seen[x] = true
+			out = append(out, x)
+		}
+	}
+	add(1)
+	add(v - 1)
+	add(v / 2)
+	if bitflips {
+		for b := uint(0); b < 32; b++ {
+			add(v ^ (1 << b))
+		}
+	}
+	return out
+}
+
+// blockLevelInputs: metadata damage confined to ONE block (RawLen / Len of one descriptor decreased or increased) in
+// a day with further blocks of the same column behind it, which are then read sequentially. must = always part of
+// the deterministic prefix; the rest goes to the seed-dependent part.
+func blockLevelInputs(work string, must bool) []Input {
+	var ins []Input
+	b, err := buildBase(3, work)
+	if err != nil {
+		fatal(err)
+	}
+	tf, tl := day0-1000, day0+3*epochDay+1000
+	for d := 0; d < 3; d++ {
+		meta := readFile(b, d, ".blockmeta")
+		n := len(b.Days[d].Blocks)
+		for blk := 0; blk < n-1; blk++ {
+			primary := blk == d%(n-1)
+			for col := 0; col < 8; col++ {
+				l, raw, _ := descOf(meta, n, col, blk)
+				p := descPos(n, col, blk)
+				if must && primary {
+					for _, v := range smaller(raw, false) {
+						ins = append(ins, Input{Base: 3, TFirst: tf, TLast: tl, Attrs: 15, Class: "meta-rawlen-decrease", Day: d, Block: blk,
+							Ops: []Op{wr(b, d, ".blockmeta", put32(meta, p+4, v))}})
+					}
+					ins = append(ins, Input{Base: 3, TFirst: tf, TLast: tl, Attrs: 15, Class: "meta-rawlen-increase", Day: d, Block: blk,
+						Ops: []Op{wr(b, d, ".blockmeta", put32(meta, p+4, raw+1))}})
+					if l > 1 {
+						ins = append(ins, Input{Base: 3, TFirst: tf, TLast: tl, Attrs: 15, Class: "meta-len-decrease", Day: d, Block: -1,
+							Ops: []Op{wr(b, d, ".blockmeta", put32(meta, p, l-1))}})
+					}
+				}
+				if !must {
+					bf := smaller(raw, true)
+					if primary {
+						bf = bf[min(len(bf), len(smaller(raw, false))):] // the rest: bit flips
+					}
+					for _, v := range bf {
+						ins = append(ins, Input{Base: 3, TFirst: tf, TLast: tl, Attrs: 15, Class: "meta-rawlen-decrease", Day: d, Block: blk,
+							Ops: []Op{wr(b, d, ".blockmeta", put32(meta, p+4, v))}})
+					}
+					for _, v := range smaller(l, true) {
+						ins = append(ins, Input{Base: 3, TFirst: tf, TLast: tl, Attrs: 15, Class: "meta-len-decrease", Day: d, Block: -1,
+							Ops: []Op{wr(b, d, ".blockmeta", put32(meta, p, v))}})
+					}
+					ins = append(ins, Input{Base: 3, TFirst: tf, TLast: tl, Attrs: 15, Class: "meta-len-increase", Day: d, Block: -1,
+						Ops: []Op{wr(b, d, ".blockmeta", put32(meta, p, l+1))}})
+					// both fields decreased together (a consistent shorter null block)
+					if l > 1 && raw == l {
+						ins = append(ins, Input{Base: 3, TFirst: tf, TLast: tl, Attrs: 15, Class: "meta-len-rawlen-decrease", Day: d, Block: -1,
+							Ops: []Op{wr(b, d, ".blockmeta", put32(put32(meta, p, l-1), p+4, l-1))}})
+					}
+				}
+			}
+		}
+	}
+	return ins
 }
 
 // fixed boundary cases (the first cases of every run)
@@ -419,22 +510,39 @@ func genRandom(r *vhlib.Rand, work string, o vhlib.Opts) Input {
 		// one descriptor / traffic / header field set to a hostile value
 		vals := []uint32{0, 1, 2, 3, 4, 8, 0x7fffffff, 0x80000000, 0xffffffff, 1 << 30, 1 << 20, 65536, uint32(r.U64()), uint32(r.Intn(64))}
 		y := meta
-		switch r.Intn(5) {
+		blkSel := -1 // the damage is confined to this block (RawLen, encoder type, entry counts: no effect on offsets / timestamps)
+		switch r.Intn(6) {
 		case 0:
 			y = put32(meta, descPos(n, r.Intn(8), r.Intn(n)), vhlib.Pick(r, vals))
 		case 1:
-			y = put32(meta, descPos(n, r.Intn(8), r.Intn(n))+4, vhlib.Pick(r, vals))
+			blkSel = r.Intn(n)
+			y = put32(meta, descPos(n, r.Intn(8), blkSel)+4, vhlib.Pick(r, vals))
 		case 2:
+			blkSel = r.Intn(n)
 			y = append([]byte(nil), meta...)
-			y[descPos(n, r.Intn(8), r.Intn(n))+8] = byte(vhlib.Pick(r, []int{0, 1, 2, 3, 4, 255}))
+			y[descPos(n, r.Intn(8), blkSel)+8] = byte(vhlib.Pick(r, []int{0, 1, 2, 3, 4, 255}))
 		case 3:
-			y = put32(meta, trafPos(n, r.Intn(n))+4*r.Intn(4), vhlib.Pick(r, vals))
+			bs, f := r.Intn(n), r.Intn(4)
+			if f < 3 {
+				blkSel = bs
+			}
+			y = put32(meta, trafPos(n, bs)+4*f, vhlib.Pick(r, vals))
 		case 4:
 			y = put64(meta, 8*r.Intn(9), vhlib.Pick(r, []uint64{0, 1, 2, 3, 1 << 32, 1 << 63, 1<<64 - 1, r.U64()}))
+		case 5:
+			// RawLen of one block decreased to a smaller non-zero value
+			blkSel = r.Intn(n)
+			col := r.Intn(8)
+			_, raw, _ := descOf(meta, n, col, blkSel)
+			if sm := smaller(raw, true); len(sm) > 0 {
+				y = put32(meta, descPos(n, col, blkSel)+4, vhlib.Pick(r, sm))
+			}
 		}
-		if r.Chance(30) { // two fields
+		if r.Chance(25) { // two fields
+			blkSel = -1
 			y = put32(y, descPos(n, r.Intn(8), r.Intn(n))+4*r.Intn(2), vhlib.Pick(r, vals))
 		}
+		in.Block = blkSel
 		in.Ops = []Op{wr(b, d, ".blockmeta", y)}
 	case k < 52:
 		in.Class = "meta-garbage"
@@ -457,7 +565,17 @@ func genRandom(r *vhlib.Rand, work string, o vhlib.Opts) Input {
 		in.Class = "col-bitflip"
 		y := append([]byte(nil), f...)
 		if len(y) > 0 {
-			y[r.Intn(len(y))] ^= 1 << uint(r.Intn(8))
+			pos := r.Intn(len(y))
+			y[pos] ^= 1 << uint(r.Intn(8))
+			// the block the flipped byte belongs to
+			off := 0
+			for blk := 0; blk < n; blk++ {
+				l, _, _ := descOf(meta, n, col, blk)
+				if pos >= off && pos < off+int(l) {
+					in.Block = blk
+				}
+				off += int(l)
+			}
 		}
 		in.Ops = []Op{wr(b, d, colNames[col]+".gpf", y)}
 	case k < 78:
@@ -855,7 +973,7 @@ func runCase(in Input, work string) (*vhlib.Case, error) {
 	}
 	raw, _ := json.Marshal(in)
 	h := sha256.Sum256(raw)
-	dir := filepath.Join(work, "c06-m-"+hex.EncodeToString(h[:8])+"-"+strconv.Itoa(os.Getpid()))
+	dir := filepath.Join(work, fmt.Sprintf("c06-m-%s-%d-%d", hex.EncodeToString(h[:8]), os.Getpid(), dirSeq.Add(1)))
 	os.RemoveAll(dir)
 	if os.Getenv("C06_KEEP") == "" {
 		defer os.RemoveAll(dir)
@@ -942,11 +1060,11 @@ func runCase(in Input, work string) (*vhlib.Case, error) {
 	for _, s := range ob.Stats {
 		stats = append(stats, vhlib.CoqN(s))
 	}
-	colOnly := strings.HasPrefix(in.Class, "col-")
+	colOnly := strings.HasPrefix(in.Class, "col-") || in.Block >= 0 // block structure of the metadata intact
 	obsRows, _ := hex.DecodeString(ob.Rows)
-	coq := fmt.Sprintf("mkCase %s %s %s %s %s %s %d%%N %d%%N %s %s %s %s %s",
+	coq := fmt.Sprintf("mkCase %s %s %s %s %s %s %d%%N %d%%N %s %s %s %s %s %s",
 		vhlib.CoqList(days), vhlib.CoqList(decs), vhlib.CoqZ(in.TFirst), vhlib.CoqZ(in.TLast), vhlib.CoqZ(monthLo), vhlib.CoqZ(monthHi),
-		in.Attrs, statusCode(ob.Status), chunks(obsRows), vhlib.CoqList(stats), vhlib.CoqList(spec), vhlib.CoqBool(in.Foreign), vhlib.CoqBool(colOnly))
+		in.Attrs, statusCode(ob.Status), chunks(obsRows), vhlib.CoqList(stats), vhlib.CoqList(spec), vhlib.CoqBool(in.Foreign), vhlib.CoqBool(colOnly), vhlib.CoqZ(int64(in.Block)))
 	tags := []string{"class:" + in.Class, "status:" + ob.Status, fmt.Sprint("base:", in.Base)}
 	if len(ob.Stats) == 4 {
 		if ob.Stats[1] > 0 {
@@ -962,11 +1080,16 @@ func runCase(in Input, work string) (*vhlib.Case, error) {
 	if in.Attrs != 15 {
 		tags = append(tags, "attr-subset")
 	}
+	if in.Block >= 0 {
+		tags = append(tags, "block-level")
+	}
 	if in.TFirst != day0-1000 || in.TLast != day0+3*epochDay+1000 {
 		tags = append(tags, "window-clipped")
 	}
 	return &vhlib.Case{Observed: ob, Tags: tags, Nontrivial: in.Class != "none", Coq: coq}, nil
 }
+
+var dirSeq atomic.Int64
 
 // ---------------------------------------------------------------- plan / prefetch (parallel children)
 
@@ -991,22 +1114,42 @@ func getPlan(o vhlib.Opts) []Input {
 		return plan
 	}
 	r := vhlib.NewRand(o.Seed ^ 0xc06)
-	fixed := fixedInputs(o.Work)
+	fixed := append(fixedInputs(o.Work), blockLevelInputs(o.Work, false)...)
 	var p []Input
+	mustN := 0
 	// quick: a seed-dependent third of the fixed boundary list (all of it in thorough / search), then random mutants
-	for i, in := range fixed {
-		if o.Tier == "thorough" || o.Search || (uint64(i)+o.Seed)%4 == 0 || in.Class == "none" {
+	seen := map[string]bool{}
+	for _, in := range blockLevelInputs(o.Work, true) {
+		raw, _ := json.Marshal(in)
+		if !seen[string(raw)] {
+			seen[string(raw)] = true
 			p = append(p, in)
 		}
 	}
-	if len(p) > o.N*2/3 {
-		p = p[:o.N*2/3]
+	mustN = len(p)
+	for i, in := range fixed {
+		raw, _ := json.Marshal(in)
+		if seen[string(raw)] {
+			continue
+		}
+		if o.Tier == "thorough" || o.Search || (uint64(i)+o.Seed)%4 == 0 || in.Class == "none" {
+			seen[string(raw)] = true
+			p = append(p, in)
+		}
+	}
+	if lim := max(mustN, o.N*2/3); len(p) > lim {
+		p = p[:lim]
 	}
 	for len(p) < o.N {
 		in := genRandom(r.Fork(), o.Work, o)
 		if in.Ops == nil {
 			continue
 		}
+		raw, _ := json.Marshal(in)
+		if seen[string(raw)] {
+			continue
+		}
+		seen[string(raw)] = true
 		p = append(p, in)
 	}
 	plan, planKey = p, key
